@@ -3,6 +3,7 @@ from registry_common import COMMON_ASSUME
 ENTRY = dict(
         title="Frame-version announcements trigger exactly the needed refreshes",
         design_ref="DESIGN.md section 6 / C15",
+        prop_modules=["C15", "C15Overlap"],
         technique="Lean 4 theorems about the announcement handler in ANY device state (hence over all announcement histories) "
                   "+ correspondence: sensor-data / regulator-data frames into a real EcoMAX via handle_frame, queue observed after quiescence "
                   "+ Lean judge C15.spec on what the implementation queued",
@@ -14,7 +15,7 @@ ENTRY = dict(
             "every history; `recorded_after`: the record then holds the last announced version, all other records unchanged; "
             "`repeat_queues_nothing`; `exact_refreshes` places this at every position of every history; `holds`: every model history passes the "
             "judge. Tables (`requestKinds_known`, `setup_kinds_are_request_kinds`) are re-proved against the source on every run: the set of "
-            "request kinds is read by reflection (handler class derives from Request). Deviation from DESIGN: a known response/message code "
+            "request kinds is read by reflection (handler class derives from Request). Overlap (Props/C15Overlap.lean): `update_frame_versions` awaits Request.create between check and record; the interleaving machine with that suspension point gives `sequential_exact`, `requests_le_tasks`, `overlap_at_most_doubles`, `doubled_request_reachable`. Deviation from DESIGN: a known response/message code "
             "that needs a refresh makes Request.create raise TypeError inside the callback, ending it (later entries are not processed); the "
             "model describes exactly that (`raised`), the statement's quantifier (request kinds + unknown codes) excludes it (`NoForeign`)."),
         level_note="Trusted: Lean kernel; model <-> devices/__init__.py tie is differential (generated histories, every set of unsupported set-up kinds, "
@@ -28,7 +29,7 @@ ENTRY = dict(
             "a code twice in one announcement": "theorem (dictOf_keys_nodup, dictOf_lookup: first position, last version)",
             "announcements via sensor data and via regulator data reach the same handler": "correspondence (both carriers generated)",
             "known response/message code in an announcement": "outside the statement's quantifier; modelled exactly (callback raises, rest dropped) and tied by correspondence",
-            "overlapping announcement dispatches": "not claimed (one announcement is run to quiescence before the next; overlap can double a request — DESIGN.md)",
+            "overlapping announcement dispatches (outside the statement's quantifier)": "theorem about the overlap machine (sequential_exact: no overlap = the sequential model; requests_le_tasks / overlap_at_most_doubles: at most one request per announcement in flight, one record update, final record = announced version; doubled_request_reachable) + correspondence with a HELD executor reproducing the doubled request on the implementation — recorded as an observation, not a violation",
         },
         assumptions=COMMON_ASSUME + [
             "one announcement frame is handled to quiescence before the next arrives (histories, not overlapping dispatches)",
